@@ -61,7 +61,7 @@ class TalCheck(CheckBase):
         self.quiesce()
         log = EventLog()
         tmpl = case["tmpl"]
-        src, occ = serialise(tmpl["tree"])
+        src, occ = serialise(tmpl["tree"], pretty=case.get("pretty", False))
         log.add("src", short_hash(src))
         try:
             template = self.compile(src)
